@@ -55,6 +55,18 @@ class NeedCodeMode(Exception):
     pass
 
 
+class ExternalRaise(Exception):
+    """an external function raises (kind = python exception class name); catchable by try/except"""
+    def __init__(self, kind, where=""):
+        self.kind = kind
+        self.where = where
+
+
+_EXC_PARENTS = {"FileNotFoundError": ["OSError", "Exception", "BaseException"], "OSError": ["Exception", "BaseException"],
+                "ValueError": ["Exception", "BaseException"], "EOFError": ["Exception", "BaseException"],
+                "TypeError": ["Exception", "BaseException"], "AssertionError": ["Exception", "BaseException"]}
+
+
 # ------------------------------------------------------------------------------------------
 # values
 
@@ -541,6 +553,8 @@ class Engine:
         self.call_depth = 0
         self.loop_counters = {}
         self.ghost = {}
+        self.module_stack = []
+        self.module_globals = {}            # (module, name) -> value written through globals()[...] on this path
 
     def fresh(self, base, sort="Real"):
         n = next(self.fresh_counter)
@@ -641,6 +655,10 @@ class Engine:
             raise PathEnd()
         self.assume(g)
 
+    @property
+    def cur_module_name(self):
+        return self.module_stack[-1] if self.module_stack else self.cur_target.split(":")[0]
+
     # -- truthiness ----------------------------------------------------------------------
     def truth(self, v):
         if isinstance(v, bool):
@@ -701,6 +719,8 @@ class Engine:
     def global_name(self, name, env):
         mod = env.lookup("__module__") if env.has("__module__") else None
         if mod is not None:
+            if (mod, name) in self.module_globals:
+                return self.module_globals[(mod, name)]
             if (mod, name) in self.module_values:
                 v = self.module_values[(mod, name)]
                 return v(self) if callable(v) and not isinstance(v, (Ext,)) else v
@@ -1030,6 +1050,11 @@ class Engine:
         if isinstance(base, VList):
             if attr in ("append", "extend", "sort", "pop"):
                 return Ext("list." + attr, lambda eng, *a, _b=base, _at=attr, **kw: eng.list_method(_b, _at, a, kw))
+        if isinstance(base, str) and attr in ("format", "encode", "join"):
+            for hook in self.str_hooks:
+                r = hook(self, base, attr)
+                if r is not NotImplemented:
+                    return r
         if isinstance(base, Vec):
             if attr == "T":
                 return base
@@ -1047,6 +1072,7 @@ class Engine:
         raise OutsideSubset("attribute {} of {!r}".format(attr, type(base).__name__))
 
     getattr_hooks = []
+    str_hooks = []
 
     def list_method(self, lst, attr, args, kw):
         if attr == "append":
@@ -1231,6 +1257,7 @@ class Engine:
         if isinstance(fnode, ast.Lambda):
             return self.ev(fnode.body, env)
         self.call_depth += 1
+        self.module_stack.append(clo.module)
         try:
             self.exec_block(fnode.body, env)
             return None
@@ -1238,6 +1265,7 @@ class Engine:
             return r.value
         finally:
             self.call_depth -= 1
+            self.module_stack.pop()
 
     # -- contracts at call sites -----------------------------------------------------------
     def clause_env(self, base_env, extra):
@@ -1260,6 +1288,12 @@ class Engine:
         env = self.bind_params(fnode, clo, args, kwargs)
         self.add_ghosts(c, env)
         short = fr.qualname
+        if self.skip_pre:
+            # lazily evaluated element of a map/imap result: preconditions were checked once for an arbitrary
+            # in-range index when the sequence was created; the value must be a term of the arguments
+            if c.result_term is None:
+                raise OutsideSubset("lazy application of {} needs a result_term".format(fr.target))
+            return c.result_term(self, env)
         for i, cl in enumerate(c.requires):
             lab, text = clause_parts(cl)
             self.oblige("call:{}/pre{}[{}]".format(short, i, lab or " ".join(text.split())[:50]), self.ev_clause(text, env))
@@ -1269,6 +1303,7 @@ class Engine:
             t = self.ev_clause(cond_text, env)
             if self.decide(t, "call:{}[{}]".format(short, cond_text)) if not isinstance(t, bool) else t:
                 return lit
+        self.ghost_call_env = env
         if c.result_term is not None:
             res = c.result_term(self, env)
         else:
@@ -1318,6 +1353,32 @@ class Engine:
 
     def ex_Pass(self, st, env):
         pass
+
+    def ex_Try(self, st, env):
+        try:
+            self.exec_block(st.body, env)
+        except ExternalRaise as e:
+            for h in st.handlers:
+                names = []
+                if h.type is None:
+                    names = None
+                elif isinstance(h.type, ast.Name):
+                    names = [h.type.id]
+                elif isinstance(h.type, ast.Tuple):
+                    names = [t.id for t in h.type.elts if isinstance(t, ast.Name)]
+                if names is None or e.kind in names or any(p in names for p in _EXC_PARENTS.get(e.kind, [])):
+                    self.path_labels.append("except[{}]".format(e.kind))
+                    self.exec_block(h.body, env)
+                    break
+            else:
+                if st.finalbody:
+                    self.exec_block(st.finalbody, env)
+                raise
+        else:
+            if st.orelse:
+                self.exec_block(st.orelse, env)
+        if st.finalbody:
+            self.exec_block(st.finalbody, env)
 
     def ex_Global(self, st, env):
         pass
@@ -1448,6 +1509,7 @@ class Engine:
 
     precond_asserts = frozenset()
     verifying_body_of = None
+    skip_pre = 0
 
     def _fn_ordinal(self, st):
         return "L{}".format(st.lineno - self.cur_fn_line) if self.cur_fn_line is not None else "L?"
@@ -1596,11 +1658,10 @@ class Engine:
         total_paths = 0
         # loop ordinals (source order)
         self.loop_ordinals = {}
-        n = 0
-        for sub in ast.walk(fnode):
-            if isinstance(sub, (ast.For, ast.While)):
-                self.loop_ordinals[id(sub)] = n
-                n += 1
+        loops = [sub for sub in ast.walk(fnode) if isinstance(sub, (ast.For, ast.While))]
+        loops.sort(key=lambda nd: (nd.lineno, nd.col_offset))   # source order
+        for n, sub in enumerate(loops):
+            self.loop_ordinals[id(sub)] = n
         pre = set()
         for st in fnode.body:
             if isinstance(st, ast.Expr) and isinstance(st.value, ast.Constant):
@@ -1654,10 +1715,14 @@ class Engine:
                             result = self.ev(fnode.body, env)
                         else:
                             self.call_depth += 1
+                            self.module_stack.append(m.name)
                             self.exec_block(fnode.body, env)
                             result = None
                     except ReturnEx as r:
                         result = r.value
+                    except ExternalRaise as e:
+                        self.oblige("no-exception-escapes[{} from {}]".format(e.kind, e.where), False,
+                                    dict(kind="raise"))
                     # postconditions
                     post_env = Env(env, {"result": result})
                     self.old_env = pre_env
